@@ -22,6 +22,14 @@ def run(tier, seed, t0):
     facts = [e for e in events if e["op"] == "fact"]
     for e in facts:
         v.violation({"property": PID, "event": e, "what": "%s of %s (variant %s): got %s, expected %s" % (e["what"], json.dumps(e["tree"])[:300], e["variant"], e["got"], e["exp"])})
+    # a collection with a single child answers as that child (transparency events of the wild objects, see C09)
+    nsingle = 0
+    for e in events:
+        if e["op"] == "equiv" and is_coll(e["A2"]) and not is_coll(e["A"]):
+            nsingle += 1
+            if e["r1"] != e["r2"]:
+                v.violation({"property": PID, "event": e, "what": "the single-child collection %s and its child %s answer differently against B=%s: %s vs %s" % (
+                    json.dumps(e["A2"])[:200], json.dumps(e["A"])[:200], json.dumps(e["B"])[:200], e["r2"], e["r1"])})
     rc = v.finish()
     cov = {
         "states": meta["distinct"], "transitions": meta["generated"], "traces_validated_against_impl": 0,
@@ -31,9 +39,11 @@ def run(tier, seed, t0):
                 "report for 8 query rectangles (SearchSemC: non-empty children whose rectangle meets the query) are compared with the "
                 "real object built by constructors and by Parse with the child index off / 1 / count / count+1 / 64, with stop "
                 "positions 0, 1, 2 (once each, early stop honoured); the relations intersects / contains / within of all pairs "
-                "involving a collection are compared with ObjectsPred. distinct_nontrivial = objects",
+                "involving a collection are compared with ObjectsPred; Parse variants also carry a loose bbox member on every object (the rectangle "
+                "comes from the positions); single-child collections of 45 'wild' planar objects (holes, degenerate rectangles, zero-length lines) "
+                "must answer as their child against every partner. distinct_nontrivial = objects",
         "samples": [{"generated_object": json.loads(open(data).readline())[:5]}],
-        "fact_checks": summ["fact_checks"], "fact_mismatches": len(facts), "relation_mismatches_involving_collections": nrel,
+        "fact_checks": summ["fact_checks"], "fact_mismatches": len(facts), "single_child_collection_events": nsingle, "relation_mismatches_involving_collections": nrel,
         "known_finding_hits": v.known_hits,
     }
     vlib.write_evidence(PID, tier, seed, t0, cov, [vlib.TOOLS, vlib.A_FLOAT,
